@@ -62,6 +62,9 @@ func GenC14Case(seed uint64, idx int) C14Case {
 		fam := mixedFamilyNames[r.Intn(len(mixedFamilyNames))]
 		classes := genClasses(r)
 		c := C14Case{Family: "mixed:" + fam, Datum: DatumSpec{Gen: "mixed:" + fam + ":" + classes, Seed: 1}}
+		if r.Chance(0.25) {
+			c.Datum.Gen += ":num"
+		}
 		if r.Chance(0.35) {
 			// a used object: it has already seen a map of the same size whose key set differs in one name
 			b := []byte(classes)
@@ -478,6 +481,16 @@ func MinimizeC14(c C14Case, seed uint64, tier string) (C14Case, *C14Diff) {
 	}
 	parts := strings.SplitN(c.Datum.Gen, ":", 3)
 	classes := parts[2]
+	suffix := ""
+	for _, sfx := range []string{":alt", ":num"} {
+		if strings.HasSuffix(classes, sfx) {
+			suffix = sfx + suffix
+			classes = strings.TrimSuffix(classes, sfx)
+		}
+	}
+	if strings.Contains(suffix, ":num") {
+		return best, bestDiff // key names depend on positions: do not drop entries
+	}
 	keep := plan.DDMinIdx(len(classes), func(k []int) bool {
 		if len(k) < 2 {
 			return false
@@ -487,7 +500,7 @@ func MinimizeC14(c C14Case, seed uint64, tier string) (C14Case, *C14Diff) {
 			b[i] = classes[j]
 		}
 		cc := c
-		cc.Datum.Gen = parts[0] + ":" + parts[1] + ":" + string(b)
+		cc.Datum.Gen = parts[0] + ":" + parts[1] + ":" + string(b) + suffix
 		r := RunC14Case(cc, seed, tier)
 		if r.Violation != nil {
 			best, bestDiff = cc, r.Violation
